@@ -501,8 +501,13 @@ def part_hashseeds(ctx, root):
     under legacy and every venom level, each in fresh processes which differ ONLY in PYTHONHASHSEED (same job order)."""
     rnd = ctx.rng("hashseeds")
     progs = {k: {"target": "c.vy", "files": {"c.vy": v}} for k, v in CF_FIXED.items()}
-    for i in range(6 if ctx.tier == "quick" else 40):
+    for i in range(4 if ctx.tier == "quick" else 40):
         progs[f"cf_gen{i}"] = {"target": "c.vy", "files": {"c.vy": gen_cf_program(rnd)}}
+    # memory-heavy programs (arrays / bytestrings / DynArray in branches and loops, internal calls with memory arguments): the
+    # venom memory passes (allocation order, dead-store / load elimination, mem2var) iterate over sets of variables / allocas
+    from vlib.c20_cf_gen import gen_cf_mem_program
+    for i in range(3 if ctx.tier == "quick" else 20):
+        progs[f"cf_mem{i}"] = {"target": "c.vy", "files": {"c.vy": gen_cf_mem_program(rnd)}}
     materialize(root, progs)
     seeds = [0, 1, 2, 3] if ctx.tier == "quick" else [0, 1, 2, 3, 4, 5, 6, 7]
     jobs = [{"prog": p, "target": "c.vy", "layout": None, "paths": None, "cfg": c,
